@@ -185,23 +185,18 @@ def setAtf (m : ChainMap) (serial : Nat) (t : List Int) : ChainMap :=
 
 def fltList (l : List Flt) : List Flt := l
 
-/-- one line of input -/
-def stepLine (o : ReadOpts) (s : PState) (ln : Nat) (line : List Char) : PState :=
-  if s.stopped then s else
-  match lexLine line ln o.level o.onlyAtomicCoords with
-  | .error e => { s with errors := s.errors ++ [e] }
-  | .ok (item, errs) =>
-    let s := { s with errors := s.errors ++ errs }
-    let ctx := (ln, line)
+/-- what one lexed item does to the parser state; the diagnostics it raises all belong to the current line,
+which `stepLine` attaches -/
+def stepItem (o : ReadOpts) (s : PState) (ctx : Nat × List Char) (item : LexItem) : PState × List LDiag :=
     match item with
-    | .header id => { s with info := { s.info with identifier := some (String.ofList id) } }
+    | .header id => ({ s with info := { s.info with identifier := some (String.ofList id) } }, [])
     | .remark num text =>
       -- `add_remark`: refused for an invalid type number or invalid characters (the result is ignored)
       if Gen.remarkTypes.contains num && validText text then
-        { s with info := { s.info with remarks := s.info.remarks ++ [(num, String.ofList text)] } }
-      else s
+        ({ s with info := { s.info with remarks := s.info.remarks ++ [(num, String.ofList text)] } }, [])
+      else (s, [])
     | .atom het serial name alt resName chain resSeq icode x y z occ b element charge =>
-      if o.discardHydrogens && element == ['H'] then s else
+      if o.discardHydrogens && element == ['H'] then (s, []) else
       let atomAdd := if serial == 0 && s.lastAtom == 99999 then s.atomAdd + 100000 else s.atomAdd
       let resAdd := if resSeq == 0 && s.lastRes == 9999 then s.resAdd + 10000 else s.resAdd
       let s := { s with atomAdd := atomAdd, resAdd := resAdd }
@@ -209,12 +204,12 @@ def stepLine (o : ReadOpts) (s : PState) (ln : Nat) (line : List Char) : PState 
       let resNameS := String.ofList resName
       let icodeS := icode.map String.ofList
       if !validText cid.toList || (prepIdUpS resNameS).isNone || (icodeS.any fun ic => (prepIdUpS ic).isNone) then
-        { s with errors := s.errors ++ [⟨.invalidating, "Invalid identifier", [ctx]⟩] }
+        (s, [(.invalidating, "Invalid identifier")])
       else
         let idTxt := (toString s.nextId).toList
         let s := { s with nextId := s.nextId + 1 }
         match atomNew het (serial + atomAdd) idTxt name x y z occ b element charge with
-        | none => { s with errors := s.errors ++ [⟨.invalidating, "Invalid atom", [ctx]⟩] }
+        | none => (s, [(.invalidating, "Invalid atom")])
         | some (a, ex) =>
           let key : ResId := (resSeq + resAdd, icodeS)
           let altS := alt.map String.ofList
@@ -222,66 +217,75 @@ def stepLine (o : ReadOpts) (s : PState) (ln : Nat) (line : List Char) : PState 
             | some r => r.addAtomRaw a resNameS altS
             | none => { serial := resSeq + resAdd, icode := icodeS.bind prepIdUpS,
                         conformers := [{ name := (prepIdUpS resNameS).getD resNameS, alt := altS.bind prepIdUpS, atoms := [a] }] }
-          { s with cur := cur, lastRes := resSeq, lastAtom := serial, exact := s.exact && ex }
+          ({ s with cur := cur, lastRes := resSeq, lastAtom := serial, exact := s.exact && ex }, [])
     | .anisou serial u =>
       match u with
       | [a, b, c, d, e, f] =>
         let m := [a, d, e, d, b, f, e, f, c].map (· * 100)
-        { s with cur := setAtf s.cur (serial + s.atomAdd) m }
-      | _ => s
+        ({ s with cur := setAtf s.cur (serial + s.atomAdd) m }, [])
+      | _ => (s, [])
     | .model n =>
       if !s.cur.isEmpty then
         let s := flushModel s
-        if o.onlyFirstModel then { s with stopped := true }
-        else { s with curNumber := n }
-      else { s with curNumber := n }
-    | .scale r v => { s with scale := setRow s.scale r v }
-    | .origx r v => { s with origx := setRow s.origx r v }
+        if o.onlyFirstModel then ({ s with stopped := true }, [])
+        else ({ s with curNumber := n }, [])
+      else ({ s with curNumber := n }, [])
+    | .scale r v => ({ s with scale := setRow s.scale r v }, [])
+    | .origx r v => ({ s with origx := setRow s.origx r v }, [])
     | .mtrix r ser v given =>
       match s.mtrix.findIdx? (·.1 == ser) with
-      | some i => { s with mtrix := s.mtrix.modify i fun (k, rows, _) => (k, setRow rows r v, given) }
-      | none => { s with mtrix := s.mtrix ++ [(ser, setRow [none, none, none] r v, given)] }
+      | some i => ({ s with mtrix := s.mtrix.modify i fun (k, rows, _) => (k, setRow rows r v, given) }, [])
+      | none => ({ s with mtrix := s.mtrix ++ [(ser, setRow [none, none, none] r v, given)] }, [])
     | .crystal a b c al be ga sg =>
       let s := { s with info := { s.info with cell := some [a, b, c, al, be, ga] } }
       match symmetryNew (sg.map Char.toNat) with
-      | some i => { s with info := { s.info with symmetry := some i } }
-      | none => { s with errors := s.errors ++ [⟨.invalidating, "Invalid space group", [ctx]⟩] }
-    | .seqres => { s with sawSeqres := true }
+      | some i => ({ s with info := { s.info with symmetry := some i } }, [])
+      | none => (s, [(.invalidating, "Invalid space group")])
+    | .seqres => ({ s with sawSeqres := true }, [])
     | .dbref chain lb li le lei db acc id d0 di0 d1 di1 =>
-      { s with dbrefs := s.dbrefs ++ [(String.ofList chain,
+      ({ s with dbrefs := s.dbrefs ++ [(String.ofList chain,
           { db := String.ofList db, acc := String.ofList acc, id := String.ofList id,
-            pdbPos := SeqPos.new lb li le lei, dbPos := SeqPos.new d0 di0 d1 di1, differences := [] }, true)] }
+            pdbPos := SeqPos.new lb li le lei, dbPos := SeqPos.new d0 di0 d1 di1, differences := [] }, true)] }, [])
     | .dbref1 chain lb li le lei db id =>
-      { s with dbrefs := s.dbrefs ++ [(String.ofList chain,
+      ({ s with dbrefs := s.dbrefs ++ [(String.ofList chain,
           { db := String.ofList db, acc := "", id := String.ofList id,
-            pdbPos := SeqPos.new lb li le lei, dbPos := SeqPos.new 0 ' ' 0 ' ', differences := [] }, false)] }
+            pdbPos := SeqPos.new lb li le lei, dbPos := SeqPos.new 0 ' ' 0 ' ', differences := [] }, false)] }, [])
     | .dbref2 chain acc b e =>
       match s.dbrefs.findIdx? (·.1 == String.ofList chain) with
-      | some i => { s with dbrefs := s.dbrefs.modify i fun (c, r, _) =>
-          (c, { r with acc := String.ofList acc, dbPos := SeqPos.new b ' ' e ' ' }, true) }
-      | none => { s with errors := s.errors ++ [⟨.breaking, "Solitary DBREF2", [ctx]⟩] }
+      | some i => ({ s with dbrefs := s.dbrefs.modify i fun (c, r, _) =>
+          (c, { r with acc := String.ofList acc, dbPos := SeqPos.new b ' ' e ' ' }, true) }, [])
+      | none => (s, [(.breaking, "Solitary DBREF2")])
     | .seqadv chain resName seqNum insert dbPos comment =>
       match s.dbrefs.findIdx? (·.1 == String.ofList chain) with
-      | some i => { s with dbrefs := s.dbrefs.modify i fun (c, r, k) =>
+      | some i => ({ s with dbrefs := s.dbrefs.modify i fun (c, r, k) =>
           (c, { r with differences := r.differences ++ [⟨String.ofList resName, seqNum, insert.map String.ofList,
-                 dbPos.map fun (n, k) => (String.ofList n, k), String.ofList comment⟩] }, k) }
-      | none => { s with errors := s.errors ++ [⟨.strictWarning, "Sequence Difference Database not found", [ctx]⟩] }
-    | .modres .. => { s with modifications := s.modifications ++ [(ctx, item)] }
-    | .ssbond .. => { s with bonds := s.bonds ++ [(ctx, item)] }
+                 dbPos.map fun (n, k) => (String.ofList n, k), String.ofList comment⟩] }, k) }, [])
+      | none => (s, [(.strictWarning, "Sequence Difference Database not found")])
+    | .modres .. => ({ s with modifications := s.modifications ++ [(ctx, item)] }, [])
+    | .ssbond .. => ({ s with bonds := s.bonds ++ [(ctx, item)] }, [])
     | .master numRemark numEmpty numXform numCoord =>
       let s := flushModel s
-      let e1 := if numRemark != s.info.remarks.length then [PDiag.mk .strictWarning "MASTER checksum failed" [ctx]] else []
-      let e2 := if numEmpty != 0 then [PDiag.mk .looseWarning "MASTER checksum failed" [ctx]] else []
+      let e1 : List LDiag := if numRemark != s.info.remarks.length then [(.strictWarning, "MASTER checksum failed")] else []
+      let e2 : List LDiag := if numEmpty != 0 then [(.looseWarning, "MASTER checksum failed")] else []
       let xform := (if (rowsFull s.origx).isSome then 3 else 0) + (if (rowsFull s.scale).isSome then 3 else 0) +
         (s.mtrix.filter fun (_, rows, _) => (rowsFull rows).isSome).length * 3
-      let e3 := if numXform != xform then [PDiag.mk .strictWarning "MASTER checksum failed" [ctx]] else []
+      let e3 : List LDiag := if numXform != xform then [(.strictWarning, "MASTER checksum failed")] else []
       let total := (s.models.map (·.atoms.length)).sum
-      let e4 := if numCoord != total then [PDiag.mk .looseWarning "MASTER checksum failed" [ctx]] else []
-      { s with errors := s.errors ++ e1 ++ e2 ++ e3 ++ e4 }
-    | .ter => { s with chainLetter := s.chainLetter + 1 }
-    | .endModel => s
-    | .endd => s
-    | .empty => s
+      let e4 : List LDiag := if numCoord != total then [(.looseWarning, "MASTER checksum failed")] else []
+      (s, e1 ++ e2 ++ e3 ++ e4)
+    | .ter => ({ s with chainLetter := s.chainLetter + 1 }, [])
+    | .endModel => (s, [])
+    | .endd => (s, [])
+    | .empty => (s, [])
+
+/-- one line of input. `stepItem` never touches `errors`; every diagnostic raised for this line quotes it. -/
+def stepLine (o : ReadOpts) (s : PState) (ln : Nat) (line : List Char) : PState :=
+  if s.stopped then s else
+  match lexLine line ln o.level o.onlyAtomicCoords with
+  | .error e => { s with errors := s.errors ++ [e] }
+  | .ok (item, errs) =>
+    let r := stepItem o { s with errors := [] } (ln, line) item
+    { r.1 with errors := s.errors ++ errs ++ attachLine ln line r.2 }
 
 /-! ### post-processing -/
 
